@@ -543,6 +543,18 @@ func controllerScenarios(tier string) []runner.Sc {
 	pre := []ctl.Mut{{Op: "set", Name: "a", Labels: "l=1"}}
 	h := []ctl.Mut{{Op: "set", Name: "b", Labels: "l=1"}}
 	tree := []hx.Spec{{Kind: "sub"}, {Kind: "clone", Children: []hx.Spec{{Kind: "sub"}, {Kind: "clone", Children: []hx.Spec{{Kind: "sub"}}}}}, {Kind: "fsub", Filter: 2}}
+	// readiness is legitimate when the controller applies the list before it notices the cancellation, but then the
+	// cache has been given the list (it asks the controller filter about every listed object)
+	applied := func(in *ctl.Inst, r *vs.Result) []string {
+		o := in.O
+		if o.CreateErr != nil || !o.ObserverRan {
+			return []string{"harness | controller scenario did not run: " + in.Desc()}
+		}
+		if o.ReadySeen && o.AcceptsAtReady == 0 {
+			return []string{fmt.Sprintf("ready although the first list was never applied | %s: controller Ready() closed before the cache had been given any listed object", in.Desc())}
+		}
+		return nil
+	}
 	oracle := func(neverReady bool) func(in *ctl.Inst, r *vs.Result) []string {
 		return func(in *ctl.Inst, r *vs.Result) []string {
 			o := in.O
@@ -588,6 +600,13 @@ func controllerScenarios(tier string) []runner.Sc {
 		mk("first-list-with-a-foreign-item", ctl.Cfg{ListFaults: map[int]fakeapi.ListFault{1: {Kind: "nonobjects"}}}, true),
 		mk("first-list-nonlist", ctl.Cfg{ListFaults: map[int]fakeapi.ListFault{1: {Kind: "nonlist"}}}, true),
 		mk("close-while-first-list-blocks", ctl.Cfg{ListFaults: map[int]fakeapi.ListFault{1: {Kind: "block"}}, Close: ctl.CloseSpec{Kind: "close", AfterMut: -1, At: time.Second}}, true),
+		// the context ends at the instant the first list returns: whichever of cache and controller notices first,
+		// nothing becomes ready without the list having been given to the cache
+		func() runner.Sc {
+			c := ctl.Cfg{CountAccepts: true, CancelOnList: 1}
+			c.Name, c.Period, c.Pre, c.Mode, c.Bound, c.ReadAt = "controller/ctx-cancel-as-the-first-list-returns", 3*time.Second, pre, "S2", d+2, 2*time.Second
+			return ctl.Scenario("C08", c, applied)
+		}(),
 		mk("ctx-cancel-while-first-list-blocks", ctl.Cfg{ListFaults: map[int]fakeapi.ListFault{1: {Kind: "block"}}, Close: ctl.CloseSpec{Kind: "ctx", AfterMut: -1, At: time.Second}}, true),
 	}
 }
